@@ -14,7 +14,9 @@ RULE = ("C01-style generated programs (stratified; facts, probabilistic facts, A
         "point) that permutes every appended batch consisting only of 'e' messages (>= 2) with random.Random(seed); "
         "oracle = differential vs the unpermuted run: same probabilities, same set of reported instances, same "
         "error class. Non-trivial: at least one schedule actually permuted a batch and the program has recursion or "
-        "a predicate with >= 2 clauses. Distinct = distinct (program, schedule seeds).")
+        "a predicate with >= 2 clauses. Distinct = distinct (program, schedule seeds). Sub-check 'findall': programs "
+        "whose queries wrap findall/3 / all/3 over probabilistic goals (C19's generator) under 4 schedules each; "
+        "result lists are compared as multisets (the element order is the one permitted difference).")
 ASSUMPTIONS = ["the permutation is applied at MessageFIFO.__iadd__, i.e. to the batches of sibling eval messages the "
                "engine pushes; cycle_exhausted/pop/buffering are the repository's",
                "differential oracle: both runs wrong in the same way is C01's business, not detected here"]
@@ -74,6 +76,48 @@ def _strategy(nseeds):
     return f
 
 
+# ------------------------------------------------------------------------------------------------ findall programs
+
+def check_findall(case):
+    """Programs whose queries wrap findall/3 or all/3 over probabilistic goals (generator of C19): the shuffled
+    schedule may change the element ORDER inside the result lists, nothing else.  Result keys are compared with
+    the contents of every list sorted (multiset comparison), probabilities of keys that coincide after sorting
+    are added (they are exclusive worlds)."""
+    from pbt.ref import c13_prolog as ref19
+    from pbt.props.c04 import _normres
+
+    src = ref19.render_program(case["prog"])
+    base = plrun.run_problog(src)
+    if base[0] == "resource":
+        return Outcome(inconclusive=base[1])
+    nbase = _normres(base)
+    permuted_any = False
+    failure = None
+    for seed in case["seeds"]:
+        eng = engines.make_engine("shuffle", seed)
+        res = plrun.run_problog(src, engine=eng)
+        if res[0] == "resource":
+            return Outcome(inconclusive=res[1])
+        if eng._stats["permuted"] > 0:
+            permuted_any = True
+        f = plrun.compare_instance_mode(nbase, _normres(res), "unpermuted", "schedule %d" % seed)
+        if f is not None:
+            f.sig = "findall|" + f.sig
+            failure = f
+            break
+    lists = base[0] == "ok" and any("[" in k for k in base[1])
+    return Outcome(nontrivial=permuted_any and lists, features=["findall-program"], failure=failure,
+                   classes=["findall:" + (base[0] if base[0] != "error" else "error:" + base[1])],
+                   sample={"program": src, "seeds": case["seeds"]})
+
+
+def _findall_strategy():
+    from pbt.gen import c13_prolog as gen19
+
+    return st.tuples(gen19.findall_cases(nested=False), st.lists(st.integers(0, 2 ** 31), min_size=4, max_size=4)).map(
+        lambda t: {"prog": t[0]["prog"], "seeds": t[1]})
+
+
 KNOWN_CLASSES = {
     "cyclic_or_complement": lambda case, failure: gp.cyclic_body_disjunction_with_complement(case["prog"]),
     "zero_prob_or_complementary_body": lambda case, failure: gp.zero_prob_or_complementary_body(case["prog"]),
@@ -86,4 +130,6 @@ KNOWN_CLASSES = {
 SUBCHECKS = [
     SubCheck("shuffle", check, strategy=_strategy(6), budget={"quick": 700, "thorough": 8000},
              timeout={"quick": 15, "thorough": 60}, render=lambda c: sem.render_program(c["prog"])),
+    SubCheck("findall", check_findall, strategy=_findall_strategy, budget={"quick": 300, "thorough": 4000},
+             timeout={"quick": 15, "thorough": 60}),
 ]
